@@ -1,4 +1,5 @@
-(* C01 — Fejer's first rule as coded (series truncated at nsum-1 terms) and with the full series *)
+(* C01 — Fejer's first rule for the series length read from the source (FejerFirst_terms): everything in this file
+   holds for nsum-1 terms (pinned code) and for nsum terms (repaired code) *)
 From Coq Require Import Reals Arith Lia Lra Bool.
 From Coquelicot Require Import Coquelicot.
 From P Require Import C01_gen C01_model C01_proofs_sums C01_proofs_trig C01_proofs_poly.
@@ -55,12 +56,17 @@ Proof.
   apply rsum_ext. intros k _. unfold pts_FejerFirst, rev, f1_w. rewrite cheb_cos. reflexivity.
 Qed.
 
+Definition f1_T (n : nat) : nat := FejerFirst_terms (f1_nsum n).
+(* all that the theorems of this file use about the generated term count *)
+Lemma f1_T_bounds n : (f1_nsum n - 1 <= f1_T n <= f1_nsum n)%nat.
+Proof. unfold f1_T, FejerFirst_terms. lia. Qed.
+
 Lemma fejer1_code_sum n m : (1 <= n)%nat -> (m <= n - 1)%nat ->
   rsum n (fun k => wts_FejerFirst n k * cheb m (pts_FejerFirst n k))
-  = if (Nat.even m && (m / 2 <=? f1_nsum n - 1))%nat then cheb_int m else 0.
+  = if (Nat.even m && (m / 2 <=? f1_T n))%nat then cheb_int m else 0.
 Proof.
-  intros Hn Hm. unfold wts_FejerFirst. rewrite f1_rule_sum. apply f1_quad; [exact Hn|].
-  unfold f1_nsum. pose proof (Nat.mul_div_le n 2). lia.
+  intros Hn Hm. unfold wts_FejerFirst. fold (f1_T n). rewrite f1_rule_sum. apply f1_quad; [exact Hn|].
+  pose proof (f1_T_bounds n). unfold f1_nsum in *. pose proof (Nat.mul_div_le n 2). lia.
 Qed.
 
 Lemma cheb_int_odd m : Nat.even m = false -> cheb_int m = 0.
@@ -82,46 +88,15 @@ Lemma fejer1_exact_partial_lemma n m : (2 <= n)%nat -> (m <= n - 1)%nat -> (Nat.
 Proof.
   intros Hn Hm Hc. rewrite fejer1_code_sum by lia.
   destruct (Nat.even m) eqn:Hev; cbn [andb]; [|symmetry; apply cheb_int_odd; exact Hev].
-  replace ((m / 2 <=? f1_nsum n - 1)%nat) with true; [reflexivity|].
-  symmetry. apply Nat.leb_le. unfold f1_nsum.
+  replace ((m / 2 <=? f1_T n)%nat) with true; [reflexivity|].
+  symmetry. apply Nat.leb_le. apply Nat.le_trans with (f1_nsum n - 1)%nat; [|apply f1_T_bounds]. unfold f1_nsum.
   apply Nat.even_spec in Hev. destruct Hev as [i ->]. rewrite (Nat.mul_comm 2 i), Nat.div_mul by lia.
   destruct Hc as [Hen|Hlt].
   - apply Nat.even_spec in Hen. destruct Hen as [q ->]. rewrite (Nat.mul_comm 2 q), Nat.div_mul by lia. lia.
   - assert (i + 1 <= n / 2)%nat; [|lia]. apply Nat.div_le_lower_bound; lia.
 Qed.
 
-(* the defect: for every odd n >= 3 the rule returns 0 for T_{n-1} instead of 2/(1-(n-1)^2) *)
-Lemma fejer1_defect_odd n : (3 <= n)%nat -> Nat.odd n = true ->
-  rsum n (fun k => wts_FejerFirst n k * cheb (n - 1) (pts_FejerFirst n k)) = 0 /\ cheb_int (n - 1) <> 0.
-Proof.
-  intros Hn Hodd. apply Nat.odd_spec in Hodd. destruct Hodd as [q ->].
-  replace (2 * q + 1 - 1)%nat with (2 * q)%nat by lia.
-  assert (Hev : Nat.even (2 * q) = true) by (rewrite Nat.even_mul; reflexivity).
-  split; [|apply cheb_int_nz; exact Hev].
-  rewrite fejer1_code_sum by lia. rewrite Hev. cbn [andb].
-  replace ((2 * q / 2 <=? f1_nsum (2 * q + 1) - 1)%nat) with false; [reflexivity|].
-  symmetry. apply Nat.leb_gt. unfold f1_nsum. rewrite (Nat.mul_comm 2 q), Nat.div_mul by lia.
-  replace ((q * 2 + 1) / 2)%nat with q; [lia|].
-  apply Nat.div_unique with 1%nat; lia.
-Qed.
-
-(* concrete witness: 3 points, f(x) = x^2: the rule gives 1, the integral is 2/3 *)
-Lemma fejer1_n3_x2 : rsum 3 (fun k => wts_FejerFirst 3 k * pts_FejerFirst 3 k ^ 2) = 1.
-Proof.
-  rewrite (rsum_ext 3 _ (fun k => (wts_FejerFirst 3 k * cheb 2 (pts_FejerFirst 3 k)
-                                   + wts_FejerFirst 3 k * cheb 0 (pts_FejerFirst 3 k)) / 2)) by (intros; simpl; field).
-  unfold Rdiv. rewrite rsum_scal_r, rsum_plus.
-  rewrite !fejer1_code_sum by lia. simpl. unfold cheb_int. simpl. lra.
-Qed.
-
-Lemma fejer1_exact_refuted_lemma :
-  exists n d, (2 <= n)%nat /\ (d <= n - 1)%nat /\
-    rsum n (fun k => wts_FejerFirst n k * pts_FejerFirst n k ^ d) <> mono_int d.
-Proof.
-  exists 3%nat, 2%nat. split; [lia|]. split; [lia|]. rewrite fejer1_n3_x2. unfold mono_int. simpl. lra.
-Qed.
-
-(* the proposed fix (series summed to nsum terms) is exact for every n and every degree <= n-1 *)
+(* the rule with the full series (nsum terms) is exact for every n and every degree <= n-1 *)
 Lemma fejer1_fixed_exact_lemma n m : (1 <= n)%nat -> (m <= n - 1)%nat ->
   rsum n (fun k => wts_FejerFirst_full n k * cheb m (pts_FejerFirst n k)) = cheb_int m.
 Proof.
